@@ -279,11 +279,21 @@ Definition decide_ge (A : assum) (x y : expr) : option bool :=     (* x >= y ? *
             else if is_lt A x y then Some false
             else None
   end.
+(** a third population created by admixture DIRECTLY after the first split (nothing in between: a zero-length first
+    epoch has been dropped): phi_1D_to_2D leaves a density concentrated on the diagonal x = y, where the ad-mixed
+    frequency f x + (1 - f) y is x whatever f, so phi_2D_to_3D_admix(phi, f, ...) is phi_2D_to_3D_split_2(xx, phi)
+    (= phi_2D_to_3D_admix(phi, 0, ...)): the admixed origin degenerates to a simultaneous three-way split *)
+Definition fuse (i : instr) (r : prog) : prog :=
+  match i, r with
+  | ISplit d p, Step (IAdmixNew d' (_ :: nil)) r' =>
+      if Nat.eqb d 1 && Nat.eqb p 0 && Nat.eqb d' 2 then Step i (Step (ISplit 2 1) r') else Step i r
+  | _, _ => Step i r
+  end.
 Fixpoint norm (A : assum) (p : prog) : prog :=
   match p with
   | Done => Done
   | Step i r => let i' := map_instr (simp A) i in
-                if is_identity i' then norm A r else Step i' (norm A r)
+                if is_identity i' then norm A r else fuse i' (norm A r)
   | IfGe a b p1 p2 =>
       let a' := simp A a in let b' := simp A b in
       match decide_ge A a' b' with
